@@ -22,7 +22,7 @@ RULE = (
     "classified by the recursive and by the iterative traversal through e.degree, compute_degree, is_linear, "
     "is_quadratic, Expression.is_linear, Problem._is_linear_problem and Problem._auto_select_method, and once more "
     "after every sub-expression object has been classified bottom-up on shared objects (non-initial degree caches), "
-    "and in four query orders on ONE object (threshold questions before the exact degree) "
+    "and in six query orders on ONE object (also: variables collected first) (threshold questions before the exact degree) "
     "(transitions = those API calls + builder ops); recipes holding a Parameter are also classified at p in {2, 1, 0}, "
     "the parameter is then set to another value and the same objects classified again.  Oracle: exact polynomial over Fractions (mc/alg.py PolyAlg); "
     "a reported degree d needs an exact polynomial of total degree <= d, and every alarm carries a witness (an "
@@ -261,7 +261,8 @@ def check_recipe(r, tier, seed, rep=None, want=None):
     # query ORDER on one object: a threshold question (is_linear / is_quadratic / a Problem's routing decision) asked
     # first, the exact degree afterwards - every answer is about the same object
     for order in (("is_linear", "is_quadratic", "degree"), ("is_quadratic", "degree", "is_linear"),
-                  ("Expression.is_linear", "degree", "compute_degree"), ("problem", "degree", "is_quadratic")):
+                  ("Expression.is_linear", "degree", "compute_degree"), ("problem", "degree", "is_quadratic"),
+                  ("variables", "degree", "is_linear"), ("variables", "is_quadratic", "degree")):
         try:
             clear_lru(analysis)
             e1 = fresh()
@@ -277,6 +278,17 @@ def check_recipe(r, tier, seed, rep=None, want=None):
                     val = e1.degree
                 elif q == "compute_degree":
                     val = analysis.compute_degree(e1)
+                elif q == "variables":
+                    # the user (or a Problem) collects variables first: every node's get_variables() has run
+                    from optyx.core.expressions import get_all_variables as _gav
+
+                    e1.get_variables()
+                    _gav(e1)
+                    for attr in ("vector", "left", "right", "expression", "operand", "matrix"):
+                        sub_ = getattr(e1, attr, None)
+                        if sub_ is not None and hasattr(sub_, "get_variables"):
+                            sub_.get_variables()
+                    val = None
                 else:
                     Problem().minimize(e1)._is_linear_problem()
                     val = None
